@@ -512,6 +512,16 @@ def run(ctx) -> None:
     from gxstat.runner import Renamed
     from rules.c08 import check_p3
     check_p3(Renamed(ctx, {'P3': 'Y9'}, key_filter=lambda k: 'DefaultValue' in k or 'fresh' in k))
+    ctx.rule('Y10', 'what a schema generator publishes is computed from its own parameter sources on every call: the generator classes keep no '
+                    'class-level state written at run time (a cache on the base class hands one generator\'s parameters to its sibling) (C08 P2)')
+    from rules.c08 import check_p2 as _p2
+    _n0 = len(ctx.obligations)
+    _p2(Renamed(ctx, {'P2': 'Y10'}, key_filter=lambda k: 'class-attribute-store' in k or k.endswith('/memoised')))
+    _keep = [o for o in ctx.obligations[_n0:] if 'schema_generator' in o['where']]
+    del ctx.obligations[_n0:]
+    ctx.obligations.extend(_keep)
+    if not _keep:
+        ctx.ok('Y10', 'schema-generators/no-class-level-state', 'src/geophires_x_schema_generator/', 'no class-attribute store, no memoised method')
     # Y7: "every result field named in the result schema is one the client can extract from a report": some writer prints its label (C10 X6)
     from gxstat.report import writer_templates
     from gxstat.runner import Renamed
